@@ -172,7 +172,7 @@ def zz(I, x):
     return I.P.z(x)
 
 
-def loop_cut(I, node, fr, name, havoc, inv, variant=None):
+def loop_cut(I, node, fr, name, havoc, inv, after_body=None):
     """Hoare-style cut of a `while` loop: inv holds on entry; from an arbitrary state satisfying inv and the guard one
     iteration re-establishes inv (that path then ends); execution continues from inv and not guard."""
     from pyvc.interp import _Break, _Continue
@@ -186,6 +186,8 @@ def loop_cut(I, node, fr, name, havoc, inv, variant=None):
             I.exec_block(node.body, fr)
         except (_Break, _Continue):
             raise Unsupported("break/continue inside a cut loop")
+        if after_body is not None:
+            after_body(I, fr)
         I.P.check("%s.inv-preserved" % name, inv(I, fr), "one iteration from an arbitrary invariant state re-establishes the invariant", kind="post")
         raise PathEnd()
     cover(I, name + ".exit")
